@@ -105,7 +105,7 @@ theorem assign_refines (h h' : Heap) (root : Val) (j jv : J) (m p : MNode Val) (
   subst hh
   have hvs := assign_is_vertexSet h h' _ hd' v p rfl ha
   have hw := gen_walk (hview h) root p (gen_parent (hview h) root m p hgen hm)
-  obtain ⟨nm, j', e1, e2, e3, e4, _⟩ := vertexSet_refold h h' _ p _ v root j jv hvs hi.unf hi.sep hv hvn hfresh hw
+  obtain ⟨nm, j', _, e1, e2, e3, e4, _⟩ := vertexSet_refold h h' _ p _ v root j jv hvs hi.unf hi.sep hv hvn hfresh hw
   simp only [MNode.child.injEq, true_and] at e1
   obtain ⟨rfl, _⟩ := e1
   exact ⟨j', e2, ⟨e3, e4, vertexSet_wf hi.wf _ p _ v hvs⟩⟩
